@@ -145,6 +145,7 @@ structure State (F : Type) where
   timeLastFlushed : Option Nat
   syncTimeoutBase : Nat
   flushAlloc : Int
+  flushFrac : F
   flushId : Nat
   syncReply : Bool
   keepalive : Option Nat
@@ -160,7 +161,7 @@ def init (ops : FloatOps F) (c : Config) (now : Nat) (rng : Rng) : State F :=
     aq := FrameQ.AckQ.init c.rxFrameWindowSize c.rxFrameBaseId,
     rate := Rate.init ops c.txBandwidthLimit,
     nowMs := 0, rttMs := 0, rtoMs := 0, timeBase := now, timeLastFlushed := none, syncTimeoutBase := 0,
-    flushAlloc := 0, flushId := 0, syncReply := false, keepalive := c.keepaliveIntervalMs, rng := rng }
+    flushAlloc := 0, flushFrac := ops.zero, flushId := 0, syncReply := false, keepalive := c.keepaliveIntervalMs, rng := rng }
 
 def isSendPending (s : State F) : Bool :=
   s.ps.pendingCount ≠ 0 ∨ s.pending.length ≠ 0 ∨ s.resend.size ≠ 0
@@ -215,9 +216,9 @@ def satAdd (a b : Int) : Int := max isizeMin (min isizeMax (a + b))
 def fillFlushAlloc (ops : FloatOps F) (s : State F) (now : Nat) : State F :=
   let s := match s.timeLastFlushed with
     | some last =>
-      let newBytes := ops.fillBytes s.rate.sendRate (now - last)
+      let (newBytes, frac) := ops.fillBytes s.rate.sendRate (now - last) s.flushFrac
       let allocMax := ops.fillMax s.rate.sendRate s.rate.rttS
-      { s with flushAlloc := min (satAdd s.flushAlloc newBytes) allocMax }
+      { s with flushAlloc := min (satAdd s.flushAlloc newBytes) allocMax, flushFrac := frac }
     | none => s
   { s with timeLastFlushed := some now }
 
